@@ -617,6 +617,13 @@ func checkC09Payload(c *Ctx) {
 		}
 		oc := originCall(payload.Call.Args[0])
 		construct := "line payload in " + fname(fn)
+		if prm, isParam := payload.Call.Args[0].(*ssa.Parameter); isParam {
+			// the line is handed in by the callers: every one of them must pass the result of json.Marshal
+			ok, why := paramFromMarshalOrConstLine(c, fn, prm)
+			c.R.Check(ok, "R-payload", construct, c.Pos(payload.Pos()), "every caller passes the result of json.Marshal",
+				sprintf("%s writes a newline-terminated line handed in by its callers, and %s", fname(fn), why))
+			continue
+		}
 		c.R.Check(oc != nil && ir.CallName(oc) == "encoding/json.Marshal", "R-payload", construct, c.Pos(payload.Pos()),
 			"line payload originates from json.Marshal", sprintf("%s writes a newline-terminated line whose payload does not come from json.Marshal", fname(fn)))
 	}
